@@ -25,6 +25,10 @@ def run(ck):
     ck.build('sys_rec')
     ck.mc('IcuModel', ck.pick('MC_Icu_quick.cfg', 'MC_Icu.cfg'), timeout=3400, coverage=False)
     files = sys_common.record(ck, ck.pick(16, 32), ck.pick(6, 24), tag='irq', mode='step')
+    # "at the first instruction boundary" also when the host runs many cycles at once: the same kinds of programs in random
+    # slices (idle loops are fast-forwarded by the run loop, the specification is not), line and vectored routing
+    files += sys_common.record(ck, ck.pick(8, 24), ck.pick(6, 16), tag='irqs', seedoff=400)
+    files += sys_common.record(ck, ck.pick(4, 12), ck.pick(4, 12), tag='irqio', mode='io', seedoff=800)
     sys_common.validate(ck, files)
     ck.sample_lines(files[0], 1, skip=5)
     ck.assumptions += sys_common.SYS_ASSUMPTIONS
